@@ -301,6 +301,14 @@ func main() {
 						cl = "exec:vm-semantics-only-differs"
 					}
 					rep.Mismatch(hx.Mismatch{Class: cl, Input: src, Impl: ti[i], Model: m})
+					// Both model semantics agree with each other and the implementation differs: the program is a
+					// concrete input on which running it does not yield what direct evaluation of the tree yields.
+					if k := strings.Index(m, "] vm=["); strings.HasPrefix(m, "ast=[") && k > 0 && strings.HasSuffix(m, "]") &&
+						m[5:k] == m[k+6:len(m)-1] {
+						rep.Fail(hx.Failure{Class: "exec:implementation-differs-from-tree-evaluation",
+							Oracle: "output, exit status and error outcome = direct evaluation of the syntax tree (AstSem.exec_stmts)",
+							Detail: map[string]any{"program": src, "implementation": ti[i], "tree_evaluation": m[5:k]}})
+					}
 				}
 			}
 		}
